@@ -147,9 +147,9 @@ def checkStmt (ce : Bool) (Γ : Ctx) (restricted : List String) (inLoop : Bool) 
   | .case sel brs el =>
     match inferL Γ sel with
     | some (.int k) =>
-      -- `check_case_stmt` visits only the `CaseBranch` children: the statements of the ELSE
-      -- branch are **never type-checked** by the real checker (`ce = false`); `ce = true` is the
-      -- repaired checker used to attribute failures to this hole
+      -- `check_case_stmt` checks the statements of the ELSE branch like any other block since
+      -- 22a8b8f (`ce = true`, the real checker); `ce = false` is the checker before that fix,
+      -- kept so that the regression witness can be stated
       (checkBranches ce Γ restricted inLoop k {} brs).isSome && (!ce || checkBlock ce Γ restricted inLoop el)
     | _ => false     -- BOOL selector: labels cannot be lowered ("expected integer constant")
   | .for x s e step body =>
@@ -238,9 +238,9 @@ def Program.acceptedWith (ce : Bool) (p : Program) : Bool :=
     && checkBlock ce p.ctx [] false p.body && p.body.lowerable
 
 /-- The model's verdict on a program: the real compiler (`TestHarness::from_source`) accepts it. -/
-def Program.accepted (p : Program) : Bool := p.acceptedWith false
+def Program.accepted (p : Program) : Bool := p.acceptedWith true
 
-/-- Verdict of the checker with the CASE-ELSE hole closed. -/
-def Program.acceptedFixed (p : Program) : Bool := p.acceptedWith true
+/-- Verdict of the checker before 22a8b8f (ELSE branch of CASE unchecked). -/
+def Program.acceptedBefore22a8b8f (p : Program) : Bool := p.acceptedWith false
 
 end TrustVerif.StCore
